@@ -62,6 +62,12 @@ const SEARCH_CHUNK: usize = 2048;
 /// a stake no f64 can carry (2^53 + 1): a lossy numeric route changes it
 const BIG: u64 = (1u64 << 53) + 1;
 const STAKES: [u64; 5] = [1, 2, 3, 10, BIG];
+/// stakes that collide with 1 (and with each other) once truncated to 32 / 56 bits
+const T32: u64 = 1 + (1 << 32);
+const T33: u64 = 1 + (1 << 33);
+const T56: u64 = 1 + (1 << 56);
+const T57: u64 = 1 + (1 << 57);
+const ALL_STAKES: [u64; 9] = [1, 2, 3, 10, BIG, T32, T33, T56, T57];
 
 const PATHS: [&str; 4] = ["stm", "signer", "aggregator", "client"];
 const STM_ENCODINGS: [&str; 4] = ["mem", "raw-bytes", "json-hex", "bytes-hex"];
@@ -72,9 +78,26 @@ fn base_encoding(path: &str) -> &'static str {
     if path == "client" { "message-json" } else { "mem" }
 }
 
+/// Pool layout (party index -> role). Members of a special pair never meet members of another special pair in a
+/// set, so the five certified pool identities (operational certificate + KES key) are enough: the first member of
+/// every pair is pool 0, the second pool 1, the fillers are pools 2, 3, 4.
+const PARTY_LABELS: [&str; 13] = [
+    "prefix-pair/0", "prefix-pair/1", "filler/0", "filler/1", "filler/2", "opposite-pair/0 (sk)", "opposite-pair/1 (r-sk)",
+    "suffix-pair/0", "suffix-pair/1", "bytes48..-pair/0", "bytes48..-pair/1", "bytes..48-pair/0", "bytes..48-pair/1",
+];
+const PARTY_IDENTITY: [usize; 13] = [0, 1, 2, 3, 4, 0, 1, 0, 1, 0, 1, 0, 1];
+/// (first member, second member, name) of the special pairs
+const PAIRS: [(usize, usize, &str); 5] =
+    [(0, 1, "equal-prefix"), (5, 6, "opposite"), (7, 8, "equal-suffix"), (9, 10, "equal-from-byte-48"), (11, 12, "equal-up-to-byte-48")];
+const F0: usize = 2;
+const F1: usize = 3;
+const F2: usize = 4;
+
 struct Party {
+    identity: usize,
     party_id: String,
-    candidate: usize,
+    /// the candidate seed the key comes from (None: the opposite key r - sk)
+    candidate: Option<usize>,
     vk_bytes: [u8; 96],
     vk: ProtocolSignerVerificationKeyForConcatenation,
     kes_sig: Option<ProtocolSignerVerificationKeySignatureForConcatenation>,
@@ -83,19 +106,22 @@ struct Party {
     stm_init: Initializer,
     /// the signer node's stored protocol initializer, one per stake value
     inits: BTreeMap<u64, ProtocolInitializer>,
-    /// this pool's KES signature over the key of every OTHER pool member (a pool announcing a key
-    /// that another pool already registered), indexed by the other member
-    kes_sig_over_key_of: Vec<Option<ProtocolSignerVerificationKeySignatureForConcatenation>>,
 }
 
 struct World {
     parties: Vec<Party>,
+    /// [pool identity][party]: that pool's KES signature over the party's key (a pool announcing a key that
+    /// another pool already registered)
+    identity_sig_over_key: Vec<Vec<ProtocolSignerVerificationKeySignatureForConcatenation>>,
+    identities: Vec<(String, Option<ProtocolOpCert>)>,
     pp: ProtocolParameters,
     params: Parameters,
     msg: ProtocolMessage,
     msg_bytes: Vec<u8>,
     cert: MithrilCertificate,
-    common_prefix_bits: usize,
+    /// common bits of the four searched pairs: prefix, suffix, from byte 48, up to byte 48
+    pair_bits: [usize; 4],
+    opposite_is_opposite: bool,
     candidates: usize,
 }
 
@@ -119,42 +145,100 @@ fn common_prefix_bits(a: &[u8], b: &[u8]) -> usize {
     n
 }
 
-/// First 16 bytes of the compressed verification key candidate `j` gets: the secret key is made from
-/// the first 32 bytes of the candidate's ChaCha stream exactly as `BlsSigningKey::generate` does
-/// (sk -> vk only, no proof of possession). The chosen candidates are re-derived through the real
-/// `Initializer::new` afterwards and must give the same bytes.
-fn candidate_prefix(j: usize) -> u128 {
+fn common_suffix_bits(a: &[u8], b: &[u8]) -> usize {
+    let mut n = 0;
+    for (x, y) in a.iter().rev().zip(b.iter().rev()) {
+        if x == y {
+            n += 8;
+        } else {
+            n += (x ^ y).trailing_zeros() as usize;
+            break;
+        }
+    }
+    n
+}
+
+/// The secret key candidate `j` gets: made from the first 32 bytes of the candidate's ChaCha stream exactly as
+/// `BlsSigningKey::generate` does. The chosen candidates are re-derived through the real `Initializer::new`
+/// afterwards and must give the same verification key.
+fn candidate_sk(j: usize) -> blst::min_sig::SecretKey {
     use rand_core::RngCore;
     let mut ikm = [0u8; 32];
     candidate_rng(j).fill_bytes(&mut ikm);
-    let sk = blst::min_sig::SecretKey::key_gen(&ikm, &[]).expect("32 bytes of key material");
-    let vk = sk.sk_to_pk().to_bytes();
-    u128::from_be_bytes(vk[..16].try_into().unwrap())
+    blst::min_sig::SecretKey::key_gen(&ikm, &[]).expect("32 bytes of key material")
 }
 
-/// Deterministic parallel birthday search: the two candidates whose verification-key bytes (in the
-/// order `compare_verification_keys` reads them) share the longest prefix. Returns (bits, a, b, size).
-fn search_equal_prefix_pair(threads: usize, start: usize) -> (usize, usize, usize, usize) {
-    let mut keys: Vec<(u128, u32)> = vec![];
+/// Four 16-byte windows of the compressed verification key of candidate `j` (sk -> vk only), each arranged so
+/// that "longest common leading bits" of the window is what is searched: the first bytes, the last bytes
+/// (bit-reversed), the bytes from 48 on (second coordinate component), the bytes up to 48 (bit-reversed).
+fn candidate_windows(j: usize) -> [u128; 4] {
+    let vk = candidate_sk(j).sk_to_pk().to_bytes();
+    let w = |a: usize| u128::from_be_bytes(vk[a..a + 16].try_into().unwrap());
+    [w(0), w(80).reverse_bits(), w(48), w(32).reverse_bits()]
+}
+
+fn measured_bits(window: usize, a: &[u8; 96], b: &[u8; 96]) -> usize {
+    match window {
+        0 => common_prefix_bits(a, b),
+        1 => common_suffix_bits(a, b),
+        2 => common_prefix_bits(&a[48..], &b[48..]),
+        _ => common_suffix_bits(&a[..48], &b[..48]),
+    }
+}
+
+/// Deterministic parallel birthday search: for each of the four windows the two candidates that agree on the
+/// most bits (a candidate serves one pair only). Returns ([(bits, a, b); 4], size).
+fn search_pairs(threads: usize, start: usize) -> ([(usize, usize, usize); 4], usize) {
+    let mut feats: Vec<[u128; 4]> = vec![];
     let mut size = start;
     loop {
-        let chunks: Vec<(usize, usize)> = (keys.len()..size).step_by(SEARCH_CHUNK).map(|a| (a, (a + SEARCH_CHUNK).min(size))).collect();
-        for part in par_map(&chunks, threads, |_, (a, b)| (*a..*b).map(|j| (candidate_prefix(j), j as u32)).collect::<Vec<_>>()) {
-            keys.extend(part);
+        let chunks: Vec<(usize, usize)> = (feats.len()..size).step_by(SEARCH_CHUNK).map(|a| (a, (a + SEARCH_CHUNK).min(size))).collect();
+        for part in par_map(&chunks, threads, |_, (a, b)| (*a..*b).map(candidate_windows).collect::<Vec<_>>()) {
+            feats.extend(part);
         }
-        keys.sort_unstable();
-        let mut best = (0usize, 0usize, 1usize);
-        for w in keys.windows(2) {
-            let l = (w[0].0 ^ w[1].0).leading_zeros() as usize;
-            if l > best.0 {
-                best = (l, w[0].1 as usize, w[1].1 as usize);
+        let mut found = [(0usize, 0usize, 1usize); 4];
+        // the fillers and the opposite pair's first member are candidates 0..=3
+        let mut used: Vec<usize> = vec![0, 1, 2, 3];
+        for win in 0..4 {
+            let mut keys: Vec<(u128, u32)> = feats.iter().enumerate().map(|(j, f)| (f[win], j as u32)).collect();
+            keys.sort_unstable();
+            let mut best = (0usize, 0usize, 1usize);
+            for w in keys.windows(2) {
+                let l = (w[0].0 ^ w[1].0).leading_zeros() as usize;
+                if l > best.0 && !used.contains(&(w[0].1 as usize)) && !used.contains(&(w[1].1 as usize)) {
+                    best = (l, w[0].1 as usize, w[1].1 as usize);
+                }
             }
+            found[win] = (best.0, best.1.min(best.2), best.1.max(best.2));
+            used.push(best.1);
+            used.push(best.2);
         }
-        if best.0 >= MIN_PREFIX_BITS || size >= 1 << 24 {
-            return (best.0, best.1.min(best.2), best.1.max(best.2), size);
+        if found.iter().all(|f| f.0 >= MIN_PREFIX_BITS) || size >= 1 << 24 {
+            return (found, size);
         }
         size *= 2;
     }
+}
+
+/// r - sk for the order r of the BLS12-381 scalar field (big-endian bytes)
+fn negate_scalar(sk: &[u8; 32]) -> [u8; 32] {
+    const R: [u8; 32] = [
+        0x73, 0xed, 0xa7, 0x53, 0x29, 0x9d, 0x7d, 0x48, 0x33, 0x39, 0xd8, 0x08, 0x09, 0xa1, 0xd8, 0x05, 0x53, 0xbd, 0xa4, 0x02, 0xff, 0xfe,
+        0x5b, 0xfe, 0xff, 0xff, 0xff, 0xff, 0x00, 0x00, 0x00, 0x01,
+    ];
+    let mut out = [0u8; 32];
+    let mut borrow = 0i16;
+    for k in (0..32).rev() {
+        let mut d = R[k] as i16 - sk[k] as i16 - borrow;
+        borrow = if d < 0 {
+            d += 256;
+            1
+        } else {
+            0
+        };
+        out[k] = d as u8;
+    }
+    out
 }
 
 fn build_world(threads: usize, candidates: usize) -> World {
@@ -165,74 +249,123 @@ fn build_world(threads: usize, candidates: usize) -> World {
     let fixture = MithrilFixtureBuilder::default().with_signers(POOL).with_protocol_parameters(pp.clone()).build();
     let fx = fixture.signers_fixture();
     assert_eq!(fx.len(), POOL);
+    let kes_signers: Vec<Arc<dyn KesSigner>> = fx
+        .iter()
+        .map(|f| {
+            Arc::new(KesSignerStandard::new(
+                f.kes_secret_key_path.clone().expect("certified fixture has a KES key"),
+                f.operational_certificate_path.clone().expect("certified fixture has an operational certificate"),
+            )) as Arc<dyn KesSigner>
+        })
+        .collect();
+    let identities: Vec<(String, Option<ProtocolOpCert>)> =
+        fx.iter().map(|f| (f.signer_with_stake.party_id.clone(), f.signer_with_stake.operational_certificate.clone())).collect();
 
-    // key material: the two candidates with the longest common prefix of the compressed verification
-    // key join the pool together with the first three others
-    let (_, a, b, candidates) = search_equal_prefix_pair(threads, candidates);
-    let mut chosen = vec![a, b];
-    for j in 0..candidates {
-        if chosen.len() < POOL && !chosen.contains(&j) {
-            chosen.push(j);
-        }
-    }
+    // key material: fillers = candidates 0,1,2; opposite pair = candidate 3 and its negation; the searched pairs
+    let (found, candidates) = search_pairs(threads, candidates);
+    // party index -> candidate (None: the negated key, made below)
+    let cand_of: [Option<usize>; 13] = [
+        Some(found[0].1), Some(found[0].2), Some(0), Some(1), Some(2), Some(3), None,
+        Some(found[1].1), Some(found[1].2), Some(found[2].1), Some(found[2].2), Some(found[3].1), Some(found[3].2),
+    ];
 
     let mut parties: Vec<Party> = vec![];
-    let mut kes_signers = vec![];
-    for (i, &cand) in chosen.iter().enumerate() {
-        let f = &fx[i];
-        let kes_signer = Arc::new(KesSignerStandard::new(
-            f.kes_secret_key_path.clone().expect("certified fixture has a KES key"),
-            f.operational_certificate_path.clone().expect("certified fixture has an operational certificate"),
-        )) as Arc<dyn KesSigner>;
-        kes_signers.push(kes_signer.clone());
-        let mut inits = BTreeMap::new();
-        for s in STAKES {
-            let init = ProtocolInitializer::setup(params, Some(kes_signer.clone()), Some(KesPeriod(0)), s, &mut candidate_rng(cand))
-                .expect("protocol initializer setup");
-            inits.insert(s, init);
-        }
-        let stm_init = Initializer::new(params, 1, &mut candidate_rng(cand));
+    for (i, cand) in cand_of.iter().enumerate() {
+        let identity = PARTY_IDENTITY[i];
+        let kes_signer = kes_signers[identity].clone();
+        let (stm_init, inits) = match cand {
+            Some(cand) => {
+                let mut inits = BTreeMap::new();
+                for s in ALL_STAKES {
+                    let init = ProtocolInitializer::setup(params, Some(kes_signer.clone()), Some(KesPeriod(0)), s, &mut candidate_rng(*cand))
+                        .expect("protocol initializer setup");
+                    inits.insert(s, init);
+                }
+                let stm_init = Initializer::new(params, 1, &mut candidate_rng(*cand));
+                assert_eq!(
+                    stm_init.get_verification_key_proof_of_possession_for_concatenation().vk.to_bytes(),
+                    candidate_sk(*cand).sk_to_pk().to_bytes(),
+                    "the search derives the key the real Initializer::new derives from the same seed"
+                );
+                (stm_init, inits)
+            }
+            None => {
+                // the opposite key: sk' = r - sk of the pair's first member. The proof of possession is made as
+                // mithril-stm makes it (k1 = sk'.sign("PoP"), k2 = sk' * G1) and is checked by the real
+                // RegistrationEntry::new at every registration; the initializers are the first member's with the
+                // secret key, the key + proof of possession and the KES signature replaced.
+                let first = &parties[i - 1];
+                let sk0 = candidate_sk(first.candidate.expect("first member comes from a candidate")).to_bytes();
+                let sk1 = negate_scalar(&sk0);
+                let blst_sk = blst::min_sig::SecretKey::from_bytes(&sk1).expect("r - sk is a valid scalar");
+                let mut vkpop = [0u8; 192];
+                vkpop[..96].copy_from_slice(&blst_sk.sk_to_pk().to_bytes());
+                vkpop[96..144].copy_from_slice(&blst_sk.sign(b"PoP", &[], &[]).to_bytes());
+                vkpop[144..].copy_from_slice(&blst::min_pk::SecretKey::from_bytes(&sk1).expect("scalar").sk_to_pk().to_bytes());
+                let vkpop = VerificationKeyProofOfPossessionForConcatenation::from_bytes(&vkpop).expect("opposite key + proof of possession decode");
+                let (kes_sig, _) = kes_signer.sign(&vkpop.to_bytes(), KesPeriod(0)).expect("KES signature over the opposite key");
+                let patch = |mut init: Value| -> Value {
+                    init["sk"] = json!(sk1.to_vec());
+                    init["pk"] = serde_json::to_value(vkpop).expect("key json");
+                    init
+                };
+                let stm_init: Initializer =
+                    serde_json::from_value(patch(serde_json::to_value(&first.stm_init).expect("initializer json"))).expect("opposite initializer");
+                let mut inits = BTreeMap::new();
+                for s in ALL_STAKES {
+                    let mut v = serde_json::to_value(&first.inits[&s]).expect("protocol initializer json");
+                    v["stm_initializer"] = patch(v["stm_initializer"].take());
+                    v["kes_signature"] = serde_json::to_value(kes_sig).expect("kes signature json");
+                    let init: ProtocolInitializer = serde_json::from_value(v).expect("opposite protocol initializer");
+                    inits.insert(s, init);
+                }
+                (stm_init, inits)
+            }
+        };
         let vk: ProtocolSignerVerificationKeyForConcatenation = inits[&1].verification_key_for_concatenation().into();
         let vk_bytes = vk.vk.to_bytes();
-        assert_eq!(
-            u128::from_be_bytes(vk_bytes[..16].try_into().unwrap()),
-            candidate_prefix(cand),
-            "the search derives the key the real Initializer::new derives from the same seed"
-        );
         assert_eq!(vk_bytes, stm_init.get_verification_key_proof_of_possession_for_concatenation().vk.to_bytes());
-        for s in STAKES {
+        for s in ALL_STAKES {
             assert_eq!(inits[&s].verification_key_for_concatenation().vk.to_bytes(), vk_bytes);
+            assert_eq!(inits[&s].get_stake(), s);
         }
         parties.push(Party {
-            party_id: f.signer_with_stake.party_id.clone(),
-            candidate: cand,
+            identity,
+            party_id: identities[identity].0.clone(),
+            candidate: *cand,
             vk_bytes,
             vk,
             kes_sig: inits[&1].verification_key_signature_for_concatenation(),
-            opcert: f.signer_with_stake.operational_certificate.clone(),
+            opcert: identities[identity].1.clone(),
             stm_init,
             inits,
-            kes_sig_over_key_of: vec![],
         });
     }
-    let keys: Vec<ProtocolSignerVerificationKeyForConcatenation> = parties.iter().map(|p| p.vk).collect();
-    for (j, p) in parties.iter_mut().enumerate() {
-        for (i, k) in keys.iter().enumerate() {
-            p.kes_sig_over_key_of.push(if i == j {
-                None
-            } else {
-                let (sig, _) = kes_signers[j].sign(&k.to_bytes(), KesPeriod(0)).expect("KES signature over another pool's key");
-                Some(sig.into())
-            });
-        }
-    }
+    let identity_sig_over_key = kes_signers
+        .iter()
+        .map(|ks| {
+            parties
+                .iter()
+                .map(|p| {
+                    let (sig, _) = ks.sign(&p.vk.to_bytes(), KesPeriod(0)).expect("KES signature over another pool's key");
+                    sig.into()
+                })
+                .collect()
+        })
+        .collect();
     let mut msg = ProtocolMessage::new();
     msg.set_message_part(ProtocolMessagePartKey::SnapshotDigest, "c06-digest".to_string());
     use mithril_common::protocol::ToMessage;
     let msg_bytes = msg.to_message().into_bytes();
+    let bits = |win: usize, (a, b, _): (usize, usize, &str)| measured_bits(win, &parties[a].vk_bytes, &parties[b].vk_bytes);
+    let (o0, o1) = (&parties[PAIRS[1].0].vk_bytes, &parties[PAIRS[1].1].vk_bytes);
     World {
-        common_prefix_bits: common_prefix_bits(&parties[0].vk_bytes, &parties[1].vk_bytes),
+        pair_bits: [bits(0, PAIRS[0]), bits(1, PAIRS[2]), bits(2, PAIRS[3]), bits(3, PAIRS[4])],
+        // same x coordinate, opposite y: the compressed encodings differ in the sign flag (0x20 of byte 0) only
+        opposite_is_opposite: o0[0] ^ o1[0] == 0x20 && o0[1..] == o1[1..],
         candidates,
+        identity_sig_over_key,
+        identities,
         parties,
         pp,
         params,
@@ -825,30 +958,29 @@ fn run_history(w: &World, route: &str, order: &[Member], refused: &[Refused], fu
             "keyreg-wrapper" => {
                 // a pool outside the set announces the registered key under its own certificate; its stake differs
                 // from the stake of every member it copies
-                let outsider = (0..POOL).find(|j| order.iter().all(|m| m.0 != *j)).ok_or("no pool outside the set")?;
+                let outsider = (0..POOL)
+                    .find(|id| order.iter().all(|m| w.parties[m.0].identity != *id))
+                    .ok_or("no pool outside the set")?;
                 let copied: Vec<u64> = refused.iter().filter(|x| x.other_stake).map(|x| order[x.refers].1).collect();
                 let mut dist: Vec<(String, u64)> = order.iter().map(|m| (w.parties[m.0].party_id.clone(), m.1)).collect();
-                dist.push((w.parties[outsider].party_id.clone(), stake_other_than(&copied)));
+                dist.push((w.identities[outsider].0.clone(), stake_other_than(&copied)));
+                // (pool identity that submits, party whose key is announced)
                 let params_of = |owner: usize, key_of: usize| SignerRegistrationParameters {
-                    party_id: Some(w.parties[owner].party_id.clone()),
-                    operational_certificate: w.parties[owner].opcert.clone(),
+                    party_id: Some(w.identities[owner].0.clone()),
+                    operational_certificate: w.identities[owner].1.clone(),
                     verification_key_for_concatenation: w.parties[key_of].vk,
-                    verification_key_signature_for_concatenation: if owner == key_of {
-                        w.parties[owner].kes_sig
-                    } else {
-                        w.parties[owner].kes_sig_over_key_of[key_of]
-                    },
+                    verification_key_signature_for_concatenation: Some(w.identity_sig_over_key[owner][key_of]),
                     kes_evolutions: Some(KesEvolutions(0)),
                 };
                 let mut kr = ProtocolKeyRegistration::init(&dist);
                 for k in 0..=order.len() {
                     for x in refused.iter().filter(|x| x.pos == k) {
                         let i = order[x.refers].0;
-                        let owner = if x.other_stake { outsider } else { i };
+                        let owner = if x.other_stake { outsider } else { w.parties[i].identity };
                         was_refused.push(kr.register(params_of(owner, i)).is_err());
                     }
                     if let Some(&(i, _)) = order.get(k) {
-                        kr.register(params_of(i, i)).map_err(es("KeyRegWrapper::register"))?;
+                        kr.register(params_of(w.parties[i].identity, i)).map_err(es("KeyRegWrapper::register"))?;
                     }
                 }
                 kr.close(&w.params).map_err(es("KeyRegWrapper::close"))?
@@ -1059,13 +1191,17 @@ fn with_stakes(members: &[usize], stakes: &[Vec<u64>]) -> Vec<Vec<Member>> {
     stakes.iter().map(|st| members.iter().copied().zip(st.iter().copied()).collect()).collect()
 }
 
-/// Level B family: sets that get the full permutation × route × encoding product
+/// Level B family: sets that get the full permutation x route x encoding product.
+/// * every special pair {X0, X1} alone, with filler 0 (thorough: also with filler 1) and with fillers 0 and 1;
+/// * generic sets: every party alone, the filler pairs, one prefix-pair member with a filler, the three fillers,
+///   one prefix-pair member with the three fillers;
+/// * two / three fillers whose stakes collide once truncated to 32 or 56 bits.
+/// Stakes: every arrangement of sub-multisets of {1,1,2,10} (N <= 2 also {1,1,2,2^53+1}); thorough: all of
+/// {1,2,10}^N and {1,1,2,2^53+1} for every N (the generic four-member set: arrangements only).
 fn level_b_sets(thorough: bool) -> Vec<Vec<Member>> {
-    let mut out = vec![];
-    for members in subsets_of_pool(1, 4) {
-        let n = members.len();
+    let stakes_for = |n: usize, all_words: bool| {
         let mut stakes = arrangements(&[1, 1, 2, 10], n);
-        if thorough {
+        if all_words {
             stakes.extend(words(&[1, 2, 10], n));
         }
         if thorough || n <= 2 {
@@ -1073,14 +1209,45 @@ fn level_b_sets(thorough: bool) -> Vec<Vec<Member>> {
         }
         stakes.sort();
         stakes.dedup();
-        out.extend(with_stakes(&members, &stakes));
+        stakes
+    };
+    let mut out: Vec<Vec<Member>> = vec![];
+    let mut add = |members: &[usize], stakes: &[Vec<u64>]| {
+        let mut m = members.to_vec();
+        m.sort();
+        out.extend(with_stakes(&m, stakes));
+    };
+    for (x0, x1, _) in PAIRS {
+        add(&[x0, x1], &stakes_for(2, thorough));
+        add(&[x0, x1, F0], &stakes_for(3, thorough));
+        if thorough {
+            add(&[x0, x1, F1], &stakes_for(3, thorough));
+        }
+        add(&[x0, x1, F0, F1], &stakes_for(4, thorough));
     }
+    for p in 0..PARTY_LABELS.len() {
+        add(&[p], &[vec![1], vec![2], vec![10], vec![BIG]]);
+    }
+    for members in [[F0, F1], [F0, F2], [F1, F2], [PAIRS[0].0, F0], [PAIRS[0].1, F2]] {
+        add(&members, &stakes_for(2, thorough));
+    }
+    add(&[F0, F1, F2], &stakes_for(3, thorough));
+    add(&[PAIRS[0].0, F0, F1, F2], &stakes_for(4, false));
+    // stakes equal modulo 2^32 / 2^56, distinct keys
+    add(&[F0, F1], &arrangements(&[1, T32, T32, T56, T56], 2));
+    add(&[F0, F1, F2], &arrangements(&[1, T32, T56], 3));
+    out.sort();
+    out.dedup();
     // smallest first (so that the first counterexample kept per key is a smallest one)
     out.sort_by_key(|s| s.len());
     out
 }
 
-/// Level A family: every set over the whole pool (sizes 1..=5) and the whole stake alphabet
+/// Level A family (one key per set, pairwise distinctness):
+/// * every set over the five-party pool {prefix pair, three fillers} (sizes 1..=5) and the stake alphabet;
+/// * for every other special pair: each member alone, the pair, the pair with filler 0;
+/// * {filler 0, filler 1}, the prefix pair and the three fillers with stake words over {1, 1+2^32, 1+2^33} and over
+///   {1, 1+2^56, 1+2^57}: different stake vectors with equal sums that coincide once stakes are truncated.
 fn level_a_sets(thorough: bool) -> Vec<Vec<Member>> {
     let mut out = vec![];
     for members in subsets_of_pool(1, POOL) {
@@ -1094,6 +1261,19 @@ fn level_a_sets(thorough: bool) -> Vec<Vec<Member>> {
         };
         out.extend(with_stakes(&members, &words(alphabet, members.len())));
     }
+    let alphabet: &[u64] = if thorough { &STAKES } else { &STAKES[..4] };
+    for (x0, x1, _) in PAIRS.iter().skip(1) {
+        for members in [vec![*x0], vec![*x1], vec![*x0, *x1], vec![F0, *x0, *x1]] {
+            out.extend(with_stakes(&members, &words(alphabet, members.len())));
+        }
+    }
+    for alphabet in [[1, T32, T33], [1, T56, T57]] {
+        for members in [vec![F0, F1], vec![PAIRS[0].0, PAIRS[0].1], vec![F0, F1, F2]] {
+            out.extend(with_stakes(&members, &words(&alphabet, members.len())));
+        }
+    }
+    out.sort();
+    out.dedup();
     out.sort_by_key(|s| s.len());
     out
 }
@@ -1163,7 +1343,7 @@ fn parse_sets(v: &Value) -> Vec<Vec<Member>> {
                 a.iter()
                     .map(|m| {
                         let st = m[1].as_str().and_then(|x| x.parse::<u64>().ok()).or(m[1].as_u64()).unwrap_or(1);
-                        (m[0].as_u64().unwrap_or(0) as usize % POOL, st)
+                        (m[0].as_u64().unwrap_or(0) as usize % PARTY_LABELS.len(), st)
                     })
                     .collect()
             })
@@ -1177,15 +1357,17 @@ pub fn run(ctx: &Ctx) -> ! {
     let threads = ctx.threads();
     let mut rep = Report::new(
         "exploration",
-        "every registration set of the family - each subset of 1..4 parties out of a pool of 5 certified parties (two of whose \
-         keys share the longest common prefix found among 2^18, thorough 2^21, candidates: >= 32 bits), with every arrangement of stakes drawn from the \
-         multiset {1,1,2,10} (for N<=2 also from {1,1,2,2^53+1}; thorough: all of {1,2,10}^N and {1,1,2,2^53+1} for every N) - is \
-         registered in EVERY order (N=4: 24 permutations) on four routes - mithril-stm directly, the signer node's and the \
+        "pool: 13 certified parties with real BLS keys and proofs of possession - three fillers and five special pairs: \
+         keys agreeing on their first / last / from-byte-48 / up-to-byte-48 bits (>= 32 each, birthday search over 2^18, thorough \
+         2^21, candidates) and a pair of opposite points (sk, r-sk). Family: every special pair alone, with one and with two \
+         fillers; every party alone; filler-only sets and sets with one pair member; fillers whose stakes collide modulo 2^32 / \
+         2^56; stakes: every arrangement drawn from the multiset {1,1,2,10} (N<=2 also {1,1,2,2^53+1}; thorough: all of \
+         {1,2,10}^N and {1,1,2,2^53+1} for every N). Every set of the family is registered in EVERY order (N=4: 24 permutations) on four routes - mithril-stm directly, the signer node's and the \
          aggregator's use of SignerBuilder, the client's compute_mithril_stake_distribution_message on the parsed JSON \
          message - with the inputs in memory and after every transport encoding; each evaluation yields key bytes, json-hex \
          text, total stake and every member's signer slot (read from a signature it makes), all of which must be identical \
          inside a set, and every signature must be accepted by the aggregator built in another order; then one key per set of \
-         the whole lattice (all subsets of sizes 1-5 x all stake words over {1,2,3,10} for N<=3 and {1,2,3} for N>=4; thorough: over {1,2,3,10,2^53+1} for every N) is computed \
+         the whole lattice (all subsets of sizes 1-5 of {prefix pair, fillers} x all stake words over {1,2,3,10} for N<=3 and {1,2,3} for N>=4, thorough {1,2,3,10,2^53+1}; the other pairs alone and with a filler; stake words over {1,1+2^32,1+2^33} and {1,1+2^56,1+2^57}) is computed \
          on two routes in opposite orders and all keys must be pairwise distinct. Arrival histories: for every set of the family, \
          on the identity and reversed arrival order (thorough: also every rotation), one submission that must be REFUSED (exact \
          re-send of a registered (key, stake); a registered key with another stake / announced by another pool) is inserted at \
@@ -1206,19 +1388,37 @@ pub fn run(ctx: &Ctx) -> ! {
         "pool",
         json!({
             "key_candidates": w.candidates,
-            "parties": w.parties.iter().enumerate().map(|(i, p)| json!({"party": i, "candidate": p.candidate, "party_id": p.party_id, "verification_key_prefix": hex::encode(&p.vk_bytes[..8])})).collect::<Vec<_>>(),
-            "common_prefix_bits_of_parties_0_and_1": w.common_prefix_bits,
-            "stake_values": STAKES.iter().map(|s| s.to_string()).collect::<Vec<_>>(),
+            "parties": w.parties.iter().enumerate().map(|(i, p)| json!({"party": i, "role": PARTY_LABELS[i], "candidate": p.candidate, "pool_identity": p.identity, "party_id": p.party_id, "verification_key": hex::encode(p.vk_bytes)})).collect::<Vec<_>>(),
+            "special_pairs": PAIRS.iter().map(|(a, b, n)| json!({"pair": n, "parties": [a, b]})).collect::<Vec<_>>(),
+            "stake_values": ALL_STAKES.iter().map(|s| s.to_string()).collect::<Vec<_>>(),
             "protocol_parameters": {"k": w.pp.k, "m": w.pp.m, "phi_f": w.pp.phi_f},
         }),
     );
-    rep.extra("equal_prefix_bits", json!(w.common_prefix_bits));
+    // vacuity guards of the forced collisions
+    rep.extra("equal_prefix_bits", json!(w.pair_bits[0]));
+    rep.extra("equal_suffix_bits", json!(w.pair_bits[1]));
+    rep.extra("equal_bits_from_byte_48", json!(w.pair_bits[2]));
+    rep.extra("equal_bits_up_to_byte_48", json!(w.pair_bits[3]));
+    rep.extra("opposite_pair_differs_in_sign_flag_only", json!(w.opposite_is_opposite));
     rep.assume(&format!(
-        "the keys of parties 0 and 1 agree on their first {} bits (longest common prefix among {} constant-seeded candidates): a key comparison that is truncated beyond that many bits is outside what this check can see",
-        w.common_prefix_bits, w.candidates
+        "forced key collisions in the pool (longest agreement found among {} constant-seeded candidates): parties 0/1 agree on their first {} bits, 7/8 on their last {} bits, 9/10 on the {} bits from byte 48 on, 11/12 on the {} bits up to byte 48; parties 5/6 are opposite points (keys of sk and r - sk: same x, compressed bytes equal except the sign flag). A key comparison / hash / encoding that is truncated beyond these agreements, or that takes another shortcut, is outside what this check can see",
+        w.candidates, w.pair_bits[0], w.pair_bits[1], w.pair_bits[2], w.pair_bits[3]
     ));
-    if w.common_prefix_bits < MIN_PREFIX_BITS {
-        rep.machinery_error(format!("equal-prefix key pair shares only {} bits (< {MIN_PREFIX_BITS})", w.common_prefix_bits));
+    for (name, bits) in ["prefix", "suffix", "from-byte-48", "up-to-byte-48"].iter().zip(w.pair_bits) {
+        if bits < MIN_PREFIX_BITS {
+            rep.machinery_error(format!("the equal-{name} key pair agrees on {bits} bits only (< {MIN_PREFIX_BITS})"));
+        }
+    }
+    if !w.opposite_is_opposite {
+        rep.machinery_error("the opposite key pair is not a pair of opposite points".into());
+    }
+    {
+        let mut keys: Vec<&[u8; 96]> = w.parties.iter().map(|p| &p.vk_bytes).collect();
+        keys.sort();
+        keys.dedup();
+        if keys.len() != w.parties.len() {
+            rep.machinery_error("two parties of the pool hold the same key".into());
+        }
     }
     rep.assume("mithril-aggregator is not linked: its route is mirrored by the calls epoch_service.rs::precompute_epoch_data makes (SignerBuilder::new(&signers, &protocol_parameters)?.build_multi_signer() and compute_aggregate_verification_key() on the result); the signer node's route mirrors single_signer.rs / signable_seed_builder.rs (SignerBuilder::new, compute_aggregate_verification_key, restore_signer_from_initializer)");
     rep.assume("phi_f = 1 so that every member wins a lottery and its slot can be read from a real signature; the key does not depend on the protocol parameters in this build (no future_snark)");
@@ -1283,7 +1483,8 @@ pub fn run(ctx: &Ctx) -> ! {
             "level_B_encodings_applied": if thorough { "every encoding at every permutation" } else { "base encoding at every permutation; every encoding at the identity and the reversed permutation" },
             "level_A_sets (one key each, distinctness)": a_sets.len(),
             "level_A_sets_by_size": by_size(&a_sets),
-            "pool_size": POOL,
+            "pool_size": PARTY_LABELS.len(),
+            "pool_identities (operational certificate + KES key)": POOL,
             "arrival_histories": {
                 "sets": b_sets.len(),
                 "routes": HISTORY_ROUTES,
